@@ -483,6 +483,43 @@ func c20MakeSimple(r *run.Run) {
 		})
 }
 
+// c20CmapBeyond: character maps that name glyphs the font does not have (files like this are accepted).
+func c20CmapBeyond(r *run.Run) {
+	r.Explore(explore.Config{Name: "C20.cmap-beyond"},
+		"5-glyph fonts of every outline kind whose character map (format 4 or 12) also maps characters to the glyph ids 5, 6, 1000 or 65535, which the font does not have, with all or no glyphs named: MakeGlyphNames and EnsureGlyphNames do not panic and give one name per glyph as always",
+		func(c *explore.Ctx) {
+			kind := c.Choose(3, "outline kind")
+			f, _ := FontFromChoices(gen.FontOpts{NoMeta: true, NoLayout: true}, kind, 1, 0, c.Choose(2, "names"), 0)
+			n := f.NumGlyphs()
+			beyond := []glyph.ID{glyph.ID(n), glyph.ID(n + 1), 1000, 65535}[c.Choose(4, "glyph id beyond the font")]
+			if c.Bool("format 12") {
+				f.CMapTable = cmap.Table{{PlatformID: 3, EncodingID: 10}: cmap.Format12{'A': 1, 'B': beyond, 0x1F600: beyond, 'C': 2}.Encode(0)}
+			} else {
+				f.CMapTable = cmap.Table{{PlatformID: 3, EncodingID: 1}: cmap.Format4{'A': 1, 'B': beyond, 'C': 2}.Encode(0)}
+			}
+			desc := fmt.Sprintf("%s, %d glyphs, the character map names glyph %d", gen.KindNames[kind], n, beyond)
+			c.Sample(func() any { return desc })
+			c.Outcome(desc)
+			c.Nontrivial()
+			var got []string
+			if p := guard(func() { got = f.MakeGlyphNames(); f.EnsureGlyphNames() }); p != "" {
+				c.Fail("C20.panic", "cmap beyond: "+explore.PanicSignature(p), "panic: %s; %s", p, desc)
+				return
+			}
+			seen := map[string]bool{}
+			for i, nm := range got {
+				if nm == "" || seen[nm] || (i == 0) != (nm == ".notdef") {
+					c.Fail("C20.complete", "cmap beyond", "names %q; %s", got, desc)
+					return
+				}
+				seen[nm] = true
+			}
+			if len(got) != n {
+				c.Fail("C20.complete", "cmap beyond", "%d names for %d glyphs; %s", len(got), n, desc)
+			}
+		})
+}
+
 // c20ManyPlaceholders: fonts in which hundreds or thousands of glyphs get numbered placeholder names (the
 // numbers grow from three to four and five digits).
 func c20ManyPlaceholders(r *run.Run) {
@@ -611,6 +648,7 @@ func init() {
 		r.Assume = []string{"cmap targets and GSUB glyphs refer to existing glyphs", "stability: 20 repeated calls inside C20.names, and every map iteration order of the seam's alphabet in C20.map-order"}
 		c20MakeSimple(r)
 		c20ManyPlaceholders(r)
+		c20CmapBeyond(r)
 		c20PostScript(r)
 		c20MapOrder(r)
 		c20Names(r)
